@@ -186,6 +186,8 @@ def tlc_trace(module, events, tag, nshards=None, timeout=1800, constants="", gro
             keep = os.path.join(OUT, "failed-" + tag)
             shutil.rmtree(keep, ignore_errors=True)
             shutil.copytree(d, keep)
+            with open(os.path.join(keep, "tlc.out"), "w") as f:
+                f.write(r.stdout + r.stderr)
             raise Infra("TLC failed (%d) on %s, shards not consumed: %s; scratch kept at %s\n%s"
                         % (r.returncode, module, missing[:5], keep, r.stdout[-3000:]))
         return bad, parse_tlc_stats(r.stdout)
